@@ -858,7 +858,7 @@ def plan_C07(ctx):
     ctx.build()
     # 1. design: all interleavings of codec construction (repaired protocol) and of interning
     fams2 = ["WantRS", "WantRR", "WantP", "WantM", "WantAB", "WantAsB", "WantN", "WantF", "WantFR", "WantD", "WantG", "WantKR"]
-    runs = [(w, "{p1, p2}") for w in fams2] + ([] if ctx.quick else [("WantK", "{p1, p2}"), ("Want3", "{p1, p2, p3}"), ("Want3AB", "{p1, p2, p3}")])
+    runs = [(w, "{p1, p2}") for w in fams2] + ([] if ctx.quick else [("WantK", "{p1, p2}"), ("Want3", "{p1, p2, p3}")])      # (Want3AB, three processes on the mutually recursive pair, does not finish within an hour since the model has the flushed / stored steps)
     def mc_build(wp):
         w, procs = wp
         cfg = ("CONSTANTS\n  p1 = p1\n  p2 = p2\n  p3 = p3\n  Procs = %s\n  Want <- %s\n  TypeDef <- MCTypeDef\n  Publish = \"pending\"\nSPECIFICATION Spec\n"
